@@ -1175,6 +1175,9 @@ fn run_sched_check(prop: &str, tier: &str) -> i32 {
     if samples.is_empty() {
         samples.push(json!("(no history explored)"));
     }
+    if !c.stats.sample_schedule.is_empty() {
+        samples.push(json!({"one_explored_schedule_thread_colon_transition": c.stats.sample_schedule}));
+    }
     let stats = &c.stats;
     let cov = json!({
         "states": (stats.distinct_states.max(stats.scheduler_states)).max(1),
